@@ -71,6 +71,14 @@ func runC13(r *core.Run) {
 	}
 	r.Extra["deviation_edge"] = "violates " + d.Violated
 	d.Cleanup()
+	d2, err := core.RunTLC(core.TLCOpts{Module: "MC_Xmp", Cfg: "Xmp.hdrcut.cfg", Workers: 2, Timeout: 10 * time.Minute})
+	if err != nil || d2.Violated == "" {
+		r.Machinery("Xmp (hdrcut deviation) was expected to violate Exact in the model: %v %s", err, tail(d2))
+		d2.Cleanup()
+		return
+	}
+	r.Extra["deviation_hdrcut"] = "violates " + d2.Violated
+	d2.Cleanup()
 	var cases []xmpCase
 	for _, cfg := range cfgs {
 		cs, ok := loadXmpCases(r, cfg)
